@@ -1,7 +1,7 @@
 (* C07 -- Reopening a saved document changes nothing.
 
-   Cell level.  A stored cell is the raw Python object in column._data (for a RaisedException together with the class of
-   its .error attribute).  `reload` (Model/Reload.v) is the load path as coded: encode_object, the database leg (an
+   Cell level.  A stored cell is the raw Python object in column._data (for a RaisedException together with the class name
+   and text of its .error attribute, which is what a reader of the cell is shown).  `reload` (Model/Reload.v) is the load path as coded: encode_object, the database leg (an
    encoded list becomes a marshalled blob; main._decode_db_value unmarshals blobs and applies decode_object) and
    <ColumnClass>.set; `recompute_cell`/`flush_cell` are the change detection of Engine._recompute_step (strict_equal) and
    ActionSummary._changes_to_actions (equal_encoding); `observe` is what column.get_cell_value shows a dependent formula.
@@ -76,10 +76,19 @@ Qed.
 
 (* ---- 3. what a dependent formula sees ---------------------------------------------------------------------------- *)
 
+(* constructor invariant of RaisedException: the saved name is the class name of .error *)
+Definition cell_inv (c : cell) : Prop :=
+  match fst c, snd c with
+  | PErr (PStr _ nm) _ _ _, Some (n, _) => n = nm
+  | PErr _ _ _ _, _ => True
+  | _, None => True
+  | _, Some _ => False
+  end.
+
 (* Full statement: reading the reloaded cell shows a dependent formula what reading the saved cell showed. *)
 Definition C07_reload_observably_equal : Prop := forall orc marshal unmarshal T n c c',
   lib_facts orc -> marshal_rt marshal unmarshal (encode_f orc n (fst c)) ->
-  vforall node_ok (fst c) = true -> vforall (node_dt orc) (fst c) = true -> storable orc T (fst c) ->
+  vforall node_ok (fst c) = true -> vforall (node_dt orc) (fst c) = true -> storable orc T (fst c) -> cell_inv c ->
   reload orc marshal unmarshal T n c = Ok c' -> observe c' = observe c.
 
 (* Proved for cells that are not errors and whose object is made of None, bool, short int, float, str and plain lists of
@@ -90,6 +99,31 @@ Theorem C07_reload_observably_equal_partial : forall orc marshal unmarshal T n v
   exact_cell T n v = true -> col_set orc T v = Ok v ->
   reload orc marshal unmarshal T n (v, None) = Ok (v, None).
 Proof. exact reload_exact. Qed.
+
+(* Error cells (after commit 2fb0387).  An error cell whose saved name is a str comes back, in every column type, as an
+   error with the same name, message and details whose .error is a stand-in exception of a class with that name, carrying
+   the saved message; the user input comes back as decode_object makes it (ui'). *)
+Theorem C07_reload_error_cell : forall orc marshal unmarshal T n nm msg details ui err,
+  marshal_rt marshal unmarshal (encode_f orc n (PErr (PStr false nm) msg details ui)) ->
+  vforall node_ok (PErr (PStr false nm) msg details ui) = true ->
+  (ui = None \/ exists k, n = S k) ->
+  exists ui', reload orc marshal unmarshal T n (PErr (PStr false nm) msg details ui, err) =
+              Ok (PErr (PStr false nm) msg details ui', Some (nm, Some (exc_text orc msg))).
+Proof. exact reload_error_cell. Qed.
+
+(* Hence a reader is shown the same thing -- the class name, and the text where the saved message is the text of the saved
+   exception (an error saved with its message, as the errors of data columns are, that is not itself the echo of another
+   cell's error; then the message carries a location suffix the stand-in repeats). *)
+Theorem C07_reload_observably_equal_error_partial : forall orc marshal unmarshal T n nm msg details ui,
+  let c := (PErr (PStr false nm) msg details ui, Some (nm, Some (exc_text orc msg))) in
+  marshal_rt marshal unmarshal (encode_f orc n (fst c)) -> vforall node_ok (fst c) = true ->
+  (ui = None \/ exists k, n = S k) ->
+  exists c', reload orc marshal unmarshal T n c = Ok c' /\ observe c' = observe c.
+Proof.
+  intros orc m u T n nm msg details ui c Hm Hok Hf.
+  destruct (reload_error_cell orc m u T n nm msg details ui (snd c) Hm Hok Hf) as [ui' H].
+  eexists. split; [exact H|reflexivity].
+Qed.
 
 (* a library satisfying lib_facts (seconds kept exactly, no zone offsets) and marshal given by a finite table *)
 Definition ideal_orc : oracles := {|
@@ -111,28 +145,19 @@ Qed.
 (* marshal tables for one encoded list e: e <-> bytes [1], the blob holding those bytes <-> bytes [2] *)
 Definition blob_table (e : value) : list (value * list Z) := [(e, [1]); (PBytes false [1], [2])].
 
-(* (a) An error cell: a data column whose trigger formula raised NameError holds RaisedException(NameError(...), user_input='').
-   It is saved as ['E', 'NameError', "name 'NoSuch' is not defined", None, {'u': ''}]; decode_args rebuilds a
-   RaisedException whose .error is None, so a formula reading the reloaded cell raises CellError around None and reports
-   'NoneType' where it reported 'NameError'. *)
+(* (a) Regression (the finding repaired by 2fb0387).  A data column whose trigger formula raised NameError holds
+   RaisedException(NameError(...), user_input=''), saved as ['E', 'NameError', "name 'NoSuch' is not defined", None, {'u': ''}].
+   decode_args used to leave .error = None, and a formula reading the reloaded cell reported 'NoneType'; now the reloaded
+   cell carries a stand-in NameError with the saved message and the reader is shown what it was shown before. *)
 Definition err_cell : cell :=
   (PErr (PStr false (Str "NameError")) (PStr false (Str "name 'NoSuch' is not defined")) PNone (Some (PStr false [])),
-   Some (Str "NameError")).
-Definition err_cell_reloaded : cell := (fst err_cell, None).
+   Some (Str "NameError", Some (Str "name 'NoSuch' is not defined"))).
 Definition err_table := blob_table (encode_f ideal_orc 5 (fst err_cell)).
 
-Theorem C07_refuted_error_cell :
-  reload ideal_orc (marshal_of err_table) (unmarshal_of err_table) TText 5 err_cell = Ok err_cell_reloaded /\
-  observe err_cell = ORaise (Str "NameError") /\ observe err_cell_reloaded = ORaise (Str "NoneType") /\
-  ~ C07_reload_observably_equal.
-Proof.
-  split; [vm_compute; reflexivity|]. split; [reflexivity|]. split; [reflexivity|].
-  intros H.
-  specialize (H ideal_orc (marshal_of err_table) (unmarshal_of err_table) TText 5%nat err_cell err_cell_reloaded ideal_lib_facts).
-  assert (Hobs : observe err_cell_reloaded = observe err_cell).
-  { apply H; try (vm_compute; reflexivity); try exact I. split; vm_compute; reflexivity. }
-  vm_compute in Hobs. discriminate Hobs.
-Qed.
+Example C07_regression_error_cell :
+  reload ideal_orc (marshal_of err_table) (unmarshal_of err_table) TText 5 err_cell = Ok err_cell /\
+  observe err_cell = ORaise (Str "NameError") (Some (Str "name 'NoSuch' is not defined")) /\ cell_inv err_cell.
+Proof. split; [vm_compute; reflexivity|]. split; reflexivity. Qed.
 
 (* (b) A rich object in an Any data column (a trigger formula returned the tuple (1, 2)): saved as ['L', 1, 2], reloaded
    as the list [1, 2]; type($A), $A == (1, 2), hash($A) differ. *)
@@ -142,8 +167,16 @@ Definition tuple_table := blob_table (encode_f ideal_orc 5 (fst tuple_cell)).
 
 Theorem C07_refuted_rich_value :
   reload ideal_orc (marshal_of tuple_table) (unmarshal_of tuple_table) TAny 5 tuple_cell = Ok tuple_cell_reloaded /\
-  observe tuple_cell_reloaded <> observe tuple_cell.
-Proof. split; [vm_compute; reflexivity|]. vm_compute. discriminate. Qed.
+  observe tuple_cell_reloaded <> observe tuple_cell /\
+  ~ C07_reload_observably_equal.
+Proof.
+  split; [vm_compute; reflexivity|]. split; [vm_compute; discriminate|].
+  intros H.
+  specialize (H ideal_orc (marshal_of tuple_table) (unmarshal_of tuple_table) TAny 5%nat tuple_cell tuple_cell_reloaded ideal_lib_facts).
+  assert (Hobs : observe tuple_cell_reloaded = observe tuple_cell).
+  { apply H; try (vm_compute; reflexivity); try exact I. split; vm_compute; reflexivity. }
+  vm_compute in Hobs. discriminate Hobs.
+Qed.
 
 (* (c) A datetime in the last microseconds of year 9999 in an Any data column: the C24 defect (its float timestamp
    rounds past the calendar) makes the reloaded cell an OverflowError value, whose encoding differs: the full statement
